@@ -1059,6 +1059,7 @@ class Engine:
                                 self.emit(st2, '%s/loop[%s]/variant' % (fname, text), t.and_(t.ge(var0, t.ZERO), t.lt(var2, var0)),
                                           kind='loop-variant', tags=spec.variant_tags or spec.tags)
                         elif fl[0] == 'break':
+                            st2.ghost['stopped'] = t.TRUE      # the loop was left by break (StopIf inside a member list)
                             out.append((st2, None))
                         else:
                             out.append((st2, fl))
@@ -1081,7 +1082,8 @@ def _as_load(node):
 
 
 class LoopSpec:
-    def __init__(self, inv, variant=None, tags=(), variant_tags=None, havoc_kinds=None, modifies=None):
+    def __init__(self, inv, variant=None, tags=(), variant_tags=None, havoc_kinds=None, modifies=None, generic_ok=False):
         self.inv, self.variant, self.tags, self.variant_tags = inv, variant, tuple(tags), variant_tags
+        self.generic_ok = generic_ok      # may also be used when the method is verified against the cross-cutting (generic) contract
         self.havoc_kinds = havoc_kinds or {}
         self.modifies = modifies
